@@ -106,10 +106,79 @@ def alternatives(f0: int, f1: int, f2: int, alt: int, pos: int, twice: bool) -> 
     return verdict(ok, nontrivial=nt, sample=sample)
 
 
+# ---- the reported (CLI) bottleneck on a shipped model -------------------------------------------------
+
+_HSW = {}
+
+
+def _hsw_forms():
+    """one xmm,xmm instruction of hsw per port set over {0,1,5}, single one-cycle micro-op (read from
+    the model as loaded from the working tree)"""
+    if not _HSW:
+        from harness._pipeline import model
+        m, _ = model("hsw")
+        from osaca.parser.register import RegisterOperand
+        found = {}
+        for name, forms in sorted(m._data["instruction_forms_dict"].items()):
+            for f in forms:
+                pp = f.port_pressure
+                if (len(f.operands) == 2 and all(isinstance(o, RegisterOperand) and o.name == "xmm" for o in f.operands)
+                        and isinstance(pp, list) and len(pp) == 1 and pp[0][0] == 1 and isinstance(pp[0][1], str)
+                        and set(pp[0][1]) <= set("015") and name.isalpha() and f.throughput is not None):
+                    found.setdefault("".join(sorted(pp[0][1])), name.lower())
+        _HSW["forms"] = sorted(found.items())
+    return _HSW["forms"]
+
+
+def _cli_concrete(i, j, k):
+    import os
+    import re
+    import tempfile
+    from harness._pipeline import run_cli
+    forms = _hsw_forms()
+    sel = [forms[x % len(forms)] for x in (i, j, k)]
+    text = "".join("%s %%xmm%d, %%xmm%d\n" % (mn, 2 * n, 2 * n + 1) for n, (_, mn) in enumerate(sel))
+    with tempfile.TemporaryDirectory() as td:
+        path = os.path.join(td, "k.s")
+        open(path, "w").write(text)
+        out = run_cli(path, ["--arch", "hsw"])
+    body = out[out.index("Combined Analysis Report"):out.index("Loop-Carried Dependencies Analysis Report")]
+    tot = [l for l in body.split("\n") if l.startswith("      ") and re.search(r"\d", l) and "|" not in l]
+    nums = [float(x) for x in tot[0].split()][:-2]
+    reported = max(nums)
+    uops = [(1, tuple("015".index(c) for c in ports)) for ports, _ in sel]
+    exact = exact_optimum(3, uops)
+    uniform = max(sum(1 / len(ix) for _, ix in uops if q in ix) for q in range(3))
+    ok = reported <= exact + 0.15 + 0.005 and reported >= exact - 0.011 - 0.005 and reported <= uniform + 0.005
+    return ok, uniform > exact + 1e-9, {"kernel": [mn for _, mn in sel], "ports": [p for p, _ in sel], "reported": reported, "exact": exact, "uniform": uniform}
+
+
+def cli_reported(i: int, j: int, k: int) -> bool:
+    """
+    pre: 0 <= i < 7 and 0 <= j < 7 and 0 <= k < 7
+    post: _
+    """
+    # what the osaca command reports (its own number of balancing passes) for 3-instruction kernels
+    # of real hsw instructions, one per available port set over {0,1,5}
+    if skip(locals()):
+        return True
+    lo, hi = shard(49)
+    if not (lo <= i * 7 + j < hi):
+        return True
+    n = len(native(_hsw_forms))
+    a, b, c = pick(i, 7), pick(j, 7), pick(k, 7)
+    if a >= n or b >= n or c >= n:
+        return True
+    ok, nt, sample = native(_cli_concrete, a, b, c)
+    return verdict(ok, nontrivial=nt, sample=sample)
+
+
 CELLS = {
     "one_cycle": {"fn": one_cycle, "bound": "all 2800 ordered kernels of length 1..4 over the 7 one-cycle forms x {1,2} passes",
                   "budget": {"quick": 170, "thorough": 600}, "shards": 16},
     "alternatives": {"fn": alternatives, "bound": "3 one-cycle single-micro-op instructions, the one at each position with a second alternative port assignment x {1,2} passes: never worse than the default assignment's uniform bottleneck, never below the best alternative's optimum",
+                     "budget": {"quick": 170, "thorough": 600}, "shards": 16},
+    "cli_reported": {"fn": cli_reported, "bound": "the real CLI (osaca.run) on hsw: every ordered 3-instruction kernel over one real xmm instruction per available port set of {0,1,5}; the reported bottleneck (totals line) vs exact optimum and uniform",
                      "budget": {"quick": 170, "thorough": 600}, "shards": 16},
     "with_two_cycle": {"fn": with_two_cycle, "bound": "all 2555 ordered kernels of length 1..3 over 14 forms containing a two-cycle form x {1,2} passes",
                        "budget": {"quick": 170, "thorough": 600}, "shards": 14},
